@@ -212,6 +212,18 @@ def param_programs():
         return top
     yield ("params/dotted-generator-names", dotted_generator_names)
 
+    # modules NAMED with dots by hand: doubled, leading and trailing dots, a lone dot
+    def dotted_module_names():
+        top = h.Module(name="DottedNamesTop")
+        top.s = h.Signal()
+        for k, nm in enumerate(("cell..v2", ".hidden", "trailing.", "a.b.c", "x...", ".", "two..dots..")):
+            c = h.Module(name=nm)
+            c.a = h.Port()
+            c.r = h.R(r=k + 1)(p=c.a, n=c.a)
+            top.add(c(a=top.s), name=f"i{k}")
+        return top
+    yield ("params/dotted-module-names", dotted_module_names)
+
     # signals and ports called like attributes of the Module object itself (only add() can give such names)
     def attribute_like_names():
         c = h.Module(name="AttrNames")
